@@ -9,6 +9,7 @@ translated from utils.py on every run.
 import TonVerif.Proofs.Hashmap
 import TonVerif.Proofs.SrcArith2
 import TonVerif.Generated.DictKey
+import TonVerif.Proofs.SrcHashmap
 
 namespace TonVerif.Properties.C09
 open TonVerif TonVerif.Model TonVerif.Model.Hashmap TonVerif.Spec.Hashmap TonVerif.Proofs.Hashmap
@@ -207,5 +208,41 @@ example : Generated.keyRejected 255 8 = false ∧ Generated.keyRejected 256 8 = 
     Generated.keyRejected 0 0 = false ∧ Generated.keyRejected 1 0 = true := by decide
 
 end Src
+
+/-! ### the round trip through the parser REGENERATED from parse.py (Generated/HashmapSrc.lean) -/
+section SrcParser
+open TonVerif.Generated.HashmapSrc TonVerif.Proofs.SrcHashmap
+
+/-- ROUND TRIP WITH THE PARSER FROM THE SOURCE.  Under the hypotheses of `c09_roundtrip` (accepted `set_int_key` calls, `serialize()`
+returned `c`) the function `parse_hashmap` as regenerated from the current text of parse.py — `parse`, `deserialize_hashmap_node`,
+`deserialize_hml`, `deserialize_unary`, for every fuel ≥ 2n + 2 — returns on `c.begin_parse()` a list `kv` of (key string, ordinary
+slice behind the leaf label) whose int-keyed form `r` is the dict of `c09_roundtrip`: keys strictly ascending, and `(k ↦ val) ∈ r` iff
+the LAST value written for `k` serialises to `val`. -/
+theorem c09_src_roundtrip {V : Type} (n : Nat) (hn : 0 < n) (ser : V → Option Val) (ins : List (Int × V)) (d : Dict V) (c : Cell)
+    (hset : setAll n ins [] = some d) (hser : serialize n ser d = some (some c)) (fuel : Nat) (hf : 2 * n + 2 ≤ fuel) :
+    ∃ (kv : List (Bits × Val)) (r : Dict Val),
+      (parse_hashmap fuel (Py.beginParse c) (n : Int)).map (·.1) = some (kv.map fun p => (p.1, valSlice p.2)) ∧
+      intKeys kv = r ∧ hashMapParse c n = .dict r ∧
+      r.Pairwise (fun a b => a.1 < b.1) ∧
+      ∀ k val, (k, val) ∈ r ↔ ∃ v, lastWrite ins k = some v ∧ ser v = some val := by
+  obtain ⟨r, h1, h2, _, h4, h5⟩ := c09_roundtrip n hn ser ins d c hset hser
+  rcases hp : parseHashmap c n with _ | kv
+  · simp [fromCell, hp] at h2
+  · simp only [fromCell, hp, Option.map_some, Option.some.injEq] at h2
+    refine ⟨kv, r, ?_, h2, h1, h4, h5⟩
+    rw [src_parse_hashmap_eq fuel c n hf, hp]; rfl
+
+/-- the key-range test, the label reader and the parse recursion the round trip rests on are the regenerated ones -/
+theorem c09_src_parse_is_model (fuel : Nat) (c : Cell) (n : Nat) (hf : 2 * n + 2 ≤ fuel) :
+    (parse_hashmap fuel (Py.beginParse c) (n : Int)).map (·.1) =
+      (parseHashmap c n).map fun kv => kv.map fun p => (p.1, valSlice p.2) :=
+  src_parse_hashmap_eq fuel c n hf
+
+/-- non-vacuity (the hypotheses are those of `c09_roundtrip`, whose examples above show a map that is accepted and serialises): the
+regenerated parser on the canonical cell of the 1-bit dictionary {0 ↦ 1, 1 ↦ 0} -/
+example : (parse_hashmap 4 (Py.beginParse (.mk (-1) [false, false] [.mk (-1) [false, false, true] [], .mk (-1) [false, false, false] []])) 1).map (·.1)
+    = some [([false], ⟨-1, [true], []⟩), ([true], ⟨-1, [false], []⟩)] := by rfl
+
+end SrcParser
 
 end TonVerif.Properties.C09
